@@ -16,7 +16,8 @@ from concurrent.futures import ThreadPoolExecutor
 
 VERIF = os.path.dirname(os.path.dirname(os.path.abspath(__file__)))
 REPO = os.environ.get("GSA_REPO", "/repo")
-SCRATCH = os.path.join(VERIF, ".cache", "scratch")
+# scratch copies of the repository live outside /repo and /verif and are removed after each use
+SCRATCH = os.environ.get("GSA_SCRATCH") or os.path.join(tempfile.gettempdir(), "gsa-scratch-%d" % os.getuid())
 
 
 def copy_repo(dst):
